@@ -45,3 +45,10 @@ VARIANTS += [
                                                      "                check_order=check_data,\n                condition=condition,\n                sortby=sortby,\n                precision=precision,\n                type_matching=type_matching,"),
       rule='C05-FORWARD', key='crossed'),
 ]
+
+VARIANTS += [
+    M('C05', 'categoricals-converted-after-the-sort', [E(CP, "        df = replace_cats(df)\n        ref_df = replace_cats(ref_df)\n", ""),
+                                                      E(CP, "                nd = self.same_structure_ddiff(df[cols], ref_df[cols], diffs)", "                nd = self.same_structure_ddiff(replace_cats(df[cols]), replace_cats(ref_df[cols]), diffs)")],
+      rule='C05-CATFIRST', key='sort_values'),
+    M('C05', 'refactor-categoricals-converted-in-one-statement', E(CP, "        df = replace_cats(df)\n        ref_df = replace_cats(ref_df)\n", "        df = replace_cats(df)\n        ref_df = replace_cats(ref_df)\n"), kind='refactor'),
+]
